@@ -70,6 +70,16 @@ CLAIMED = {
          "Applications that switch language before the first HALT, while handling input, in a child node and right before the end; every switch answer is a choice among valid 2/3-letter codes, invalid strings and a valid code without the LANG flag; config language on/off; translations present for subsets of {entry template, child template, menu label}; all histories up to depth 3 (quick) / 4 (thorough) in long-lived and persisted operation. Every template, menu and external-function lookup must carry the session's language, rendered text must be the translation where one exists and the default otherwise, also after save/resume; unknown codes leave the language unchanged.",
          "Trusted: ref.VM's language rule (config, then last valid code). resource.DbResource's own translation fallback is exercised by C10, not here.",
          "DESIGN.md §4 C18"),
+ "C13": ("fault_enumeration",
+         "exhaustive enumeration of client programs x every placement of 0, 1 or 2 failing primitive driver calls against an in-process transactional fake of the pgx interface; transactional reference map + open-transaction accounting + reads through a second connection",
+         "Every protocol-conformant client program up to length 4 (quick) / 6 (thorough; 5 for the language-scoped variant) over {Put k1 v, Put k1 v', Put k2 v, Get k1, Get k2, Get missing, Start, Stop, Abort} followed by Close is first run fault-free to count its driver calls, then re-run on a fresh server for every single call number and every pair failing. Each run checks: the faulted operation reports an error, every transaction begun is ended exactly once and never used afterwards, later operations return the reference's values, a second connection sees exactly the acknowledged writes, and explicit transactions are atomic at Stop/Abort.",
+         "Trusted: pgfake (the transactional fake: private write sets, aborted state, ErrTxClosed, strict conn-busy) as a model of PostgreSQL/pgx; real server behaviour beyond it (deadlocks, connection loss mid-row) is not modelled. Four open known findings share one cause pinned by a repository test.",
+         "DESIGN.md §4 C13"),
+ "C08": ("model_checking",
+         "explicit-state BFS of the persisted-mode session graph per corpus application (canonical decoded snapshot + environment state, successor by replay on a fresh store) + depth-bounded enumeration of long-lived histories + directed long histories; invariants and recover() on every request",
+         "Corpus of ~80 well-formed applications (collision apps of every other check, the repository's examples loaded from the current tree through the harness's own assembly reader with input-determined stubs). From every reached session state every selector and 14 junk inputs (empty, NUL, invalid UTF-8, template syntax, 255/256/300 bytes ...) are tried; every request is checked for panics, instruction budget, one cache scope per navigation level, exact size accounting, declared limits, snapshot decode/re-encode equality and continued service.",
+         "Trusted: the static well-formedness checker decides which applications are in scope. State graphs are capped (400 states quick / 4000 thorough per application and configuration); capped graphs are reported. No random continuation.",
+         "DESIGN.md §4 C08"),
 }
 
 NOT_YET = {}
